@@ -3,7 +3,7 @@
 import base64, hashlib, json, os, random, shutil, socket, subprocess, tempfile, time
 
 from . import build
-from .seqengine import xh, integrity
+from .seqengine import xh, unxh, integrity
 
 B36 = "0123456789abcdefghijklmnopqrstuvwxyz"
 
@@ -148,7 +148,31 @@ def frame_canon(j):
         ttl(j.get("ttl"))])
 
 
-TOPICS = ["a", "ab", "a.b", "t-1", "xs.context", "x%20y", "head", "cas2", "import2", ""]
+TOPICS = ["a", "ab", "a.b", "t-1", "xs.context", "x%20y", "head", "cas2", "import2", "", "x", "a/b", "head/x"]
+# topics only an import can create (POST trims every leading slash) - they make route parsing observable
+IMPORT_ONLY_TOPICS = ["/head/x", "/x", "/head/head/x", "//a"]
+RAW_PATHS = ["/head//head/x", "/head/x", "/head/", "/head", "/head/head", "//head/x", "/head/a/b", "/head/head/x", "/head//x",
+             "/head//head/head/x", "/cas", "/cas/", "/cas/nope", "/import", "/import/", "/version", "/version/", "/", "//", "///a",
+             "/a/", "/a//b", "//x", "/x", "/head/%2Fhead%2Fx", "/head///a"]
+_ROUTE_CACHE = {}
+
+
+def model_route(method, path):
+    """Model/Route.v route_path (extracted) on the raw path -> (route, carried bytes or None)"""
+    key = (method, path)
+    if key not in _ROUTE_CACHE:
+        p = subprocess.run([build.XSMODEL, "route"], input=f"{method} {xh(path)}\n".encode(), stdout=subprocess.PIPE,
+                           stderr=subprocess.PIPE, timeout=30)
+        t = p.stdout.decode().split()
+        _ROUTE_CACHE[key] = (t[0], unxh(t[1]).decode() if len(t) > 1 else None)
+    return _ROUTE_CACHE[key]
+
+
+def valid_id_text(t):
+    try:
+        return len(t) == 25 and t.isascii() and t.isalnum() and s_to_id(t) < 2 ** 128
+    except Exception:
+        return False
 METAS = [None, "{}", '{"a":1}', '{"b":{"c":[1,2]},"a":"x"}']
 BODIES = [b"", b"hello", b"\xff\xfe\x00\x01", b"z" * 9000, b"a"]
 
@@ -162,6 +186,17 @@ class HGen:
         self.ctxs = [0]     # ids of registered contexts
         self.maybe = []
         self.hashes = []
+        self.queue = []     # scripted requests served before random ones
+        if rnd.random() < 0.5:
+            # route-parsing scenario: topics that look like routes, on both sides of a possible confusion
+            for t in rnd.sample(IMPORT_ONLY_TOPICS, 2) + ["/head/x"]:
+                self.queue.append(("import", t))
+            for t in ("x", "head/x"):
+                self.queue.append(("post", t))
+            for path in ["/head//head/x", "/head/x", "/head/head/x", "/head//x", "/head//head/head/x"]:
+                self.queue.append(("raw", "GET", path))
+            rnd.shuffle(self.queue)
+            self.queue.sort(key=lambda q: q[0] == "raw")   # lookups after the writes
 
     def pick_ctx(self):
         k = self.r.random()
@@ -181,8 +216,62 @@ class HGen:
     def gen(self):
         """-> dict(kind, model tokens (with ids as hex), raw bytes); appends resolved later"""
         r = self.r
+        if self.queue:
+            q = self.queue.pop(0)
+            if q[0] == "import":
+                return self.mk_import(r.randrange(1, 2 ** 90), 0, q[1], None, None)
+            if q[0] == "post":
+                return self.mk_append(q[1], "-", 0, "-", None, None, None, b"")
+            return self.mk_raw(q[1], q[2])
         k = r.choices(["append", "register", "get", "remove", "head", "cat", "casget", "caspost", "import", "version",
-                       "notfound"], [10, 3, 4, 3, 4, 5, 3, 2, 3, 1, 1])[0]
+                       "notfound", "rawpath"], [10, 3, 4, 3, 4, 5, 3, 2, 3, 1, 1, 5])[0]
+        if k == "rawpath":
+            method = r.choice(["GET", "GET", "GET", "POST", "DELETE", "PUT"])
+            path = r.choice(RAW_PATHS)
+            if self.ids and r.random() < 0.2:
+                path = r.choice(["", "/", "/x"]) + "/" + id_to_s(r.choice(self.ids)) + r.choice(["", "", "/"])
+            return self.mk_raw(method, path)
+        return self.gen_random(k)
+
+    def mk_raw(self, method, path):
+            """a raw (method, path): the route and what it carries are computed by the extracted route_path"""
+            r = self.r
+            route, arg = model_route(method, path)
+            if route == "version":
+                return dict(kind="version", toks=["version"], raw=render(method, path))
+            if route == "cat":
+                return dict(kind="cat", toks=["cat", "0", "-", "-", "-"], raw=render(method, path))
+            if route == "head":
+                return dict(kind="head", toks=["head", xh(arg), "-"], raw=render(method, path))
+            if route == "casget":
+                return dict(kind="casget", toks=["casget", "bad"], raw=render(method, path))
+            if route == "caspost":
+                body = r.choice(BODIES)
+                h = integrity(body) if body else None
+                if body:
+                    self.hashes.append(h)
+                return dict(kind="caspost", toks=["caspost", xh(body), xh(h) if h else "-"], raw=render(method, path, body=body))
+            if route == "import":
+                return dict(kind="import", toks=["import", "bad"], raw=render(method, path, body=b"{"))
+            if route in ("get", "remove"):
+                if valid_id_text(arg):
+                    i = s_to_id(arg)
+                    return dict(kind=route, toks=[route, "ok:" + hex32(i)], raw=render(method, path), removes=i if route == "remove" else None)
+                return dict(kind=route, toks=[route, "bad"], raw=render(method, path))
+            if route == "append":
+                return self.mk_append(arg, "-", 0, "-", None, None, None, r.choice(BODIES[:3]), raw_path=path)
+            return dict(kind="notfound", toks=["notfound"], raw=render(method, path))
+
+    def mk_import(self, i, c, topic, meta, ttl):
+        fj = dict(topic=topic, context_id=id_to_s(c), id=id_to_s(i), hash=None, meta=json.loads(meta) if meta else None, ttl=ttl)
+        body = json.dumps(fj, separators=(",", ":")).encode()
+        tt = "-" if ttl is None else (ttl if ":" not in ttl else ttl.split(":")[0] + ":%x" % int(ttl.split(":")[1]))
+        toks = ["import", hex32(i), hex32(c), xh(topic), "-", xh(meta) if meta else "-", tt]
+        return dict(kind="import", toks=toks, raw=render("POST", "/import", body=body),
+                    imports=(i, topic, c) if "\x00" not in topic else None, probe_ctx=i if topic == "xs.context" else None)
+
+    def gen_random(self, k):
+        r = self.r
         if k == "register":
             return self.mk_append("xs.context", "-", 0, "-", None, "-", None, b"")
         if k == "append":
@@ -243,22 +332,15 @@ class HGen:
                 return dict(kind=k, toks=["import", "bad"], raw=render("POST", "/import", body=body))
             i = r.randrange(1, 2 ** 90)
             c = r.choice(self.ctxs + [r.randrange(1, 2 ** 64)])
-            topic = r.choice(TOPICS + ["a\x00b", "xs.context"])
+            topic = r.choice(TOPICS + IMPORT_ONLY_TOPICS + ["a\x00b", "xs.context"])
             if topic == "xs.context" and r.random() < 0.6:
                 c = 0
-            meta = r.choice(METAS)
-            ttl = r.choice([None, "forever", "head:3", "ephemeral"])
-            fj = dict(topic=topic, context_id=id_to_s(c), id=id_to_s(i), hash=None, meta=json.loads(meta) if meta else None, ttl=ttl)
-            body = json.dumps(fj, separators=(",", ":")).encode()
-            tt = "-" if ttl is None else (ttl if ":" not in ttl else ttl.split(":")[0] + ":%x" % int(ttl.split(":")[1]))
-            toks = ["import", hex32(i), hex32(c), xh(topic), "-", xh(meta) if meta else "-", tt]
-            return dict(kind=k, toks=toks, raw=render("POST", "/import", body=body),
-                        imports=(i, topic, c) if "\x00" not in topic else None, probe_ctx=i if topic == "xs.context" else None)
+            return self.mk_import(i, c, topic, r.choice(METAS), r.choice([None, "forever", "head:3", "ephemeral"]))
         if k == "version":
             return dict(kind=k, toks=["version"], raw=render("GET", "/version"))
         return dict(kind="notfound", toks=["notfound"], raw=render(self.r.choice(["PUT", "PATCH"]), "/" + self.r.choice(["a", "cas", ""])))
 
-    def mk_append(self, topic, ctok, cval, tt, mk, meta, _unused, body):
+    def mk_append(self, topic, ctok, cval, tt, mk, meta, _unused, body, raw_path=None):
         q = []
         if ctok != "-":
             q.append("context=" + (id_to_s(cval) if cval is not None else "nope"))
@@ -285,7 +367,7 @@ class HGen:
         if body:
             self.hashes.append(bh)
         toks = ["append", xh(topic), ctok, ttok, mtok, xh(body), xh(bh) if bh else "-"]
-        return dict(kind="append", toks=toks, raw=render("POST", "/" + topic + ("?" + "&".join(q) if q else ""), headers, body),
+        return dict(kind="append", toks=toks, raw=render("POST", (raw_path or "/" + topic) + ("?" + "&".join(q) if q else ""), headers, body),
                     topic=topic, ctx=cval)
 
 
